@@ -178,7 +178,9 @@ def regroup_dbscan(srccat, eps=4):
 
     log.debug("Clustering")
     # run clustering algorighm
-    db = DBSCAN(eps=eps, min_samples=1).fit(X)
+    # (a tree computes the distances directly; for small catalogs the default
+    # is a brute force method that loses precision for close pairs)
+    db = DBSCAN(eps=eps, min_samples=1, algorithm='kd_tree').fit(X)
 
     log.debug("Constructing groups")
     # count labels and regroup accordingly
